@@ -187,7 +187,7 @@ class KexGSSGroup1:
                     target=self.gss_host, recv_token=srv_token
                 )
             )
-            self.transport.send_message(m)
+            self.transport._send_message(m)
             self.transport._expect_packet(
                 MSG_KEXGSS_CONTINUE, MSG_KEXGSS_COMPLETE, MSG_KEXGSS_ERROR
             )
@@ -586,7 +586,7 @@ class KexGSSGex:
                     target=self.gss_host, recv_token=srv_token
                 )
             )
-            self.transport.send_message(m)
+            self.transport._send_message(m)
             self.transport._expect_packet(
                 MSG_KEXGSS_CONTINUE, MSG_KEXGSS_COMPLETE, MSG_KEXGSS_ERROR
             )
